@@ -515,16 +515,19 @@ fn run_once(line: &str, dir: &PathBuf, quiet: Duration) -> String {
                     Err(e) => note = format!("!connect:{}", e.kind()),
                 }
             }
-            b'f' => {
+            b'f' | b'F' => {
+                // F: close that client whether or not its service call has started (used by probes built from this side's state)
+                let lenient = op.as_bytes()[0] == b'F';
                 let id: u64 = rest.parse().unwrap();
                 if let Some(p) = clients.iter().position(|(c, _)| *c == id) {
                     let (_, mut c) = clients.remove(p);
                     multi += c.extra_greetings();
                     drop(c);
-                    if !wait_until(|| sh.done.lock().unwrap().contains(&id)) {
+                    let started = sh.served.lock().unwrap().iter().any(|(n, _, _)| *n == id);
+                    if (!lenient || started) && !wait_until(|| sh.done.lock().unwrap().contains(&id)) {
                         note = "!service-call-did-not-end".into();
                     }
-                } else {
+                } else if !lenient {
                     note = "!no-such-client".into();
                 }
             }
